@@ -3,8 +3,12 @@ package main
 import (
 	"context"
 	"encoding/binary"
+	"encoding/json"
 	"fmt"
 	"net"
+	"os"
+	"os/exec"
+	"path/filepath"
 	"sort"
 	"strconv"
 	"strings"
@@ -70,8 +74,11 @@ func pubIndexOfData(inner []byte) (int, bool) {
 }
 
 type mev struct {
-	kind    string // pub down up burst
+	kind    string // pub down up burst congest
 	a, b, c int    // pub: origin, channel; down/up: u, v, link id; burst: origin, channel, id of the link whose far end does not read
+	// congest: router a, channel b; neighbours d (link e) and f (link g) stop reading, a publishes twice,
+	// f publishes once, then d (c == 0) or f (c == 1) resumes first
+	d, e, f, g int
 }
 
 func (e mev) term() string {
@@ -80,6 +87,8 @@ func (e mev) term() string {
 		return hx.App("EPub", hx.Nat(e.a), hx.Nat(e.b))
 	case "down":
 		return hx.App("EDown", hx.Nat(e.a), hx.Nat(e.b), hx.Nat(e.c))
+	case "congest":
+		return strings.Join([]string{hx.App("EPub", hx.Nat(e.a), hx.Nat(e.b)), hx.App("EPub", hx.Nat(e.a), hx.Nat(e.b)), hx.App("EPub", hx.Nat(e.f), hx.Nat(e.b))}, "; ")
 	case "burst":
 		// for the model a burst is a sequence of publishes: the send queues are unbounded FIFOs
 		items := make([]string, burstLen(e.c))
@@ -96,7 +105,12 @@ func (e mev) term() string {
 // per-peer send queue (32) plus the packet in the blocked write.
 func burstLen(lid int) int { return 36 + lid%8 }
 
-func (e mev) String() string { return fmt.Sprintf("%s(%d,%d,%d)", e.kind, e.a, e.b, e.c) }
+func (e mev) String() string {
+	if e.kind == "congest" {
+		return fmt.Sprintf("congest(router %d, ch %d, gated %d via link %d and %d via link %d, first to resume %d)", e.a, e.b, e.d, e.e, e.f, e.g, []int{e.d, e.f}[e.c])
+	}
+	return fmt.Sprintf("%s(%d,%d,%d)", e.kind, e.a, e.b, e.c)
+}
 
 type mesh struct {
 	n     int
@@ -113,6 +127,142 @@ type mesh struct {
 	handed  [][]int
 	wire    [][][4]int // (u, v, link id, count)
 	problem string
+}
+
+// meshJSON carries a mesh scenario to a child process and its observations back: the code under test
+// runs goroutines the harness does not own, a panic there kills the process.
+type meshJSON struct {
+	N       int
+	Kind    string
+	Links   [][3]int
+	Subs    [][2]int
+	Evs     [][8]int // kind code, a..g
+	Order   []int
+	Early   int
+	Pubs    [][2]int
+	UpAt    [][][3]int
+	Handed  [][]int
+	Wire    [][][4]int
+	Problem string
+}
+
+var evKinds = []string{"pub", "down", "up", "burst", "congest"}
+
+func (m *mesh) toJSON() *meshJSON {
+	j := &meshJSON{N: m.n, Kind: m.kind, Links: m.links, Subs: m.subs, Order: m.order, Early: m.early,
+		Pubs: m.pubs, UpAt: m.upAt, Handed: m.handed, Wire: m.wire, Problem: m.problem}
+	for _, e := range m.evs {
+		k := 0
+		for i, n := range evKinds {
+			if n == e.kind {
+				k = i
+			}
+		}
+		j.Evs = append(j.Evs, [8]int{k, e.a, e.b, e.c, e.d, e.e, e.f, e.g})
+	}
+	return j
+}
+
+func (j *meshJSON) toMesh() *mesh {
+	m := &mesh{n: j.N, kind: j.Kind, links: j.Links, subs: j.Subs, order: j.Order, early: j.Early,
+		pubs: j.Pubs, upAt: j.UpAt, handed: j.Handed, wire: j.Wire, problem: j.Problem}
+	for _, e := range j.Evs {
+		m.evs = append(m.evs, mev{kind: evKinds[e[0]], a: e[1], b: e[2], c: e[3], d: e[4], e: e[5], f: e[6], g: e[7]})
+	}
+	return m
+}
+
+// c28Batch is the child side: run the meshes of a batch file, write the observations next to it.
+func c28Batch(c *hx.Ctx) {
+	c.Type, c.Agree = "c28_case", "c28_agree"
+	raw, err := os.ReadFile(c.Replay)
+	if err != nil {
+		panic(err)
+	}
+	var js []*meshJSON
+	if err := json.Unmarshal(raw, &js); err != nil {
+		panic(err)
+	}
+	keys := genKeys(c.Rng, 6)
+	ms := make([]*mesh, len(js))
+	for i := range js {
+		ms[i] = js[i].toMesh()
+	}
+	parallel(len(ms), 6, func(i int) { runMesh(ms[i], keys) })
+	out := make([]*meshJSON, len(ms))
+	for i := range ms {
+		out[i] = ms[i].toJSON()
+	}
+	b, _ := json.Marshal(out)
+	if err := os.WriteFile(c.Replay+".out", b, 0o644); err != nil {
+		panic(err)
+	}
+}
+
+// runMeshesInChildren runs the meshes in child processes (batches); a batch whose process died is
+// re-run mesh by mesh, a mesh whose own process dies gets problem "process crashed: ...".
+func runMeshesInChildren(c *hx.Ctx, meshes []*mesh) {
+	_ = os.MkdirAll(c.Out, 0o755)
+	dir, err := os.MkdirTemp(c.Out, "c28batch")
+	if err != nil {
+		panic(err)
+	}
+	defer os.RemoveAll(dir)
+	runBatch := func(name string, idx []int) (bool, string) {
+		js := make([]*meshJSON, len(idx))
+		for k, i := range idx {
+			js[k] = meshes[i].toJSON()
+		}
+		b, _ := json.Marshal(js)
+		f := filepath.Join(dir, name+".json")
+		if err := os.WriteFile(f, b, 0o644); err != nil {
+			panic(err)
+		}
+		cmd := exec.Command(os.Args[0], "-prop", "C28BATCH", "-seed", strconv.FormatInt(c.Seed, 10), "-replay", f, "-out", filepath.Join(dir, name+".d"))
+		cmd.Env = append(os.Environ(), "PUBSUB_CHILD=1")
+		outb, err := cmd.CombinedOutput()
+		res, rerr := os.ReadFile(f + ".out")
+		if err != nil || rerr != nil {
+			tail := string(outb)
+			if i := strings.Index(tail, "panic:"); i >= 0 {
+				tail = tail[i:]
+			}
+			if len(tail) > 900 {
+				tail = tail[:900]
+			}
+			return false, tail
+		}
+		var got []*meshJSON
+		if json.Unmarshal(res, &got) != nil || len(got) != len(idx) {
+			return false, "unreadable child output"
+		}
+		for k, i := range idx {
+			r := got[k].toMesh()
+			meshes[i].pubs, meshes[i].upAt, meshes[i].handed, meshes[i].wire, meshes[i].problem = r.pubs, r.upAt, r.handed, r.wire, r.problem
+		}
+		return true, ""
+	}
+	const bs = 16
+	nb := (len(meshes) + bs - 1) / bs
+	failed := make([]bool, nb)
+	parallel(nb, 3, func(b int) {
+		var idx []int
+		for i := b * bs; i < (b+1)*bs && i < len(meshes); i++ {
+			idx = append(idx, i)
+		}
+		ok, _ := runBatch("b"+strconv.Itoa(b), idx)
+		failed[b] = !ok
+	})
+	for b := range failed {
+		if !failed[b] {
+			continue
+		}
+		for i := b * bs; i < (b+1)*bs && i < len(meshes); i++ {
+			if ok, tail := runBatch("m"+strconv.Itoa(i), []int{i}); !ok {
+				meshes[i].problem = "process crashed: " + tail
+			}
+		}
+	}
 }
 
 func genMesh(c *hx.Ctx) *mesh {
@@ -206,21 +356,65 @@ func genMesh(c *hx.Ctx) *mesh {
 	pub := func() {
 		if rng.Intn(5) != 0 {
 			s := m.subs[rng.Intn(len(m.subs))]
-			m.evs = append(m.evs, mev{"pub", s[0], s[1], 0})
+			m.evs = append(m.evs, mev{kind: "pub", a: s[0], b: s[1], c: 0})
 		} else {
-			m.evs = append(m.evs, mev{"pub", rng.Intn(n), rng.Intn(2), 0})
+			m.evs = append(m.evs, mev{kind: "pub", a: rng.Intn(n), b: rng.Intn(2), c: 0})
 		}
 	}
 	pubNear := func(l [3]int) {
 		// publish from either end of the link that just changed
 		o := l[rng.Intn(2)]
-		m.evs = append(m.evs, mev{"pub", o, rng.Intn(2), 0})
+		m.evs = append(m.evs, mev{kind: "pub", a: o, b: rng.Intn(2), c: 0})
 	}
 	steps := 2 + rng.Intn(4)
 	bursted := false
+	congested := false
 	for i := 0; i < steps; i++ {
 		switch x := rng.Intn(10); {
 		case x < 5 || len(up) == 0:
+			if len(up) > 1 && !congested && rng.Intn(6) == 0 {
+				// congestion at a router: two subscribed neighbours stop reading, the router floods, one of the
+				// two publishes, they resume one after the other (wire-level: nothing goes back to its source)
+				var ups [][3]int
+				for _, l := range up {
+					ups = append(ups, l)
+				}
+				sort.Slice(ups, func(a, b int) bool { return ups[a][2] < ups[b][2] })
+				type cand struct{ n, ch, a, la, b, lb int }
+				var cands []cand
+				for ch := 0; ch < 2; ch++ {
+					for r := 0; r < n; r++ {
+						if !m.isSub(r, ch) {
+							continue
+						}
+						var nb [][2]int // neighbour, link
+						for _, l := range ups {
+							o := -1
+							if l[0] == r {
+								o = l[1]
+							} else if l[1] == r {
+								o = l[0]
+							}
+							if o >= 0 && m.isSub(o, ch) {
+								nb = append(nb, [2]int{o, l[2]})
+							}
+						}
+						for i := range nb {
+							for j := range nb {
+								if nb[i][0] != nb[j][0] {
+									cands = append(cands, cand{r, ch, nb[i][0], nb[i][1], nb[j][0], nb[j][1]})
+								}
+							}
+						}
+					}
+				}
+				if len(cands) > 0 {
+					x := cands[rng.Intn(len(cands))]
+					m.evs = append(m.evs, mev{kind: "congest", a: x.n, b: x.ch, c: rng.Intn(2), d: x.a, e: x.la, f: x.b, g: x.lb})
+					congested = true
+					continue
+				}
+			}
 			if len(up) > 0 && !bursted && rng.Intn(16) == 0 {
 				// back-pressure: the far end of one link stops reading while more messages than its
 				// peer's send queue holds are published, then resumes
@@ -236,7 +430,7 @@ func genMesh(c *hx.Ctx) *mesh {
 				}
 				for ch := 0; ch < 2; ch++ {
 					if m.isSub(far, ch) && !bursted {
-						m.evs = append(m.evs, mev{"burst", o, ch, l[2]})
+						m.evs = append(m.evs, mev{kind: "burst", a: o, b: ch, c: l[2]})
 						bursted = true
 					}
 				}
@@ -265,7 +459,7 @@ func genMesh(c *hx.Ctx) *mesh {
 			l := cands[rng.Intn(len(cands))]
 			delete(up, l[2])
 			downed = append(downed, l)
-			m.evs = append(m.evs, mev{"down", l[0], l[1], l[2]})
+			m.evs = append(m.evs, mev{kind: "down", a: l[0], b: l[1], c: l[2]})
 			pubNear(l)
 		default:
 			// a link comes up: a downed one again (same tuple), or a new parallel/new link
@@ -286,11 +480,11 @@ func genMesh(c *hx.Ctx) *mesh {
 				l = [3]int{a, b, lid}
 			}
 			up[l[2]] = l
-			m.evs = append(m.evs, mev{"up", l[0], l[1], l[2]})
+			m.evs = append(m.evs, mev{kind: "up", a: l[0], b: l[1], c: l[2]})
 			pubNear(l)
 		}
 	}
-	if k := m.evs[len(m.evs)-1].kind; k != "pub" && k != "burst" {
+	if k := m.evs[len(m.evs)-1].kind; k != "pub" && k != "burst" && k != "congest" {
 		pub()
 	}
 	m.order = rng.Perm(len(m.links) + len(m.subs))
@@ -522,6 +716,56 @@ func runMesh(m *mesh, keys []keyInfo) {
 				m.problem = "subscriptions were not announced over a new link within 8s"
 				return
 			}
+		case "congest":
+			r, ch := ev.a, ev.b
+			first := len(m.pubs)
+			cur := upList()
+			origins := []int{r, r, ev.f}
+			for _, o := range origins {
+				m.pubs = append(m.pubs, [2]int{o, ch})
+				m.upAt = append(m.upAt, cur)
+			}
+			ga, gb := gates[[2]int{ev.d, ev.e}], gates[[2]int{ev.f, ev.g}]
+			ga.shut()
+			gb.shut()
+			pubAsync := func(o, idx int) {
+				go func() {
+					_ = nodes[o].Publish(ctx, "ch"+strconv.Itoa(ch), keys[o].priv, []byte(fmt.Sprintf("pub%d.", idx)))
+				}()
+			}
+			pubAsync(r, first) // occupies both writers
+			time.Sleep(40 * time.Millisecond)
+			pubAsync(r, first+1) // queued for both neighbours
+			time.Sleep(40 * time.Millisecond)
+			pubAsync(ev.f, first+2) // comes back to the router, is queued for the other neighbour only
+			time.Sleep(60 * time.Millisecond)
+			if ev.c == 0 {
+				ga.open()
+				time.Sleep(50 * time.Millisecond)
+				gb.open()
+			} else {
+				gb.open()
+				time.Sleep(50 * time.Millisecond)
+				ga.open()
+			}
+			for j, o := range origins {
+				reach := m.reachable(cur, o, ch)
+				idx := first + j
+				waitFor(5*time.Second, time.Millisecond, func() bool {
+					if dead() {
+						return true
+					}
+					mu.Lock()
+					defer mu.Unlock()
+					for v := 0; v < n; v++ {
+						if reach[v] && m.isSub(v, ch) && handed[[2]int{idx, v}] == 0 {
+							return false
+						}
+					}
+					return true
+				})
+			}
+			quiet()
 		case "burst":
 			origin, ch, lid := ev.a, ev.b, ev.c
 			l := up[lid]
@@ -676,7 +920,7 @@ func c28(c *hx.Ctx) {
 	for i := range meshes {
 		meshes[i] = genMesh(c)
 	}
-	parallel(nm, 12, func(i int) { runMesh(meshes[i], keys) })
+	runMeshesInChildren(c, meshes)
 	for _, m := range meshes {
 		evS := []string{}
 		var evT []string
@@ -690,6 +934,9 @@ func c28(c *hx.Ctx) {
 			if e.kind == "burst" {
 				c.Class("with-backpressure-burst")
 			}
+			if e.kind == "congest" {
+				c.Class("with-congested-router")
+			}
 		}
 		desc := map[string]any{"kind": m.kind, "n": m.n, "links(u,v,id)": m.links, "subs(node,ch)": m.subs, "events": evS,
 			"setup_order": m.order, "setup_before_execute": m.early, "handed": m.handed, "wire(u,v,id,count)": m.wire}
@@ -701,6 +948,9 @@ func c28(c *hx.Ctx) {
 			key := "c28-harness-timeout"
 			if strings.HasPrefix(m.problem, "Execute panicked") {
 				key = "c28-execute-panic"
+			}
+			if strings.HasPrefix(m.problem, "process crashed") {
+				key = "c28-process-crash"
 			}
 			c.Failf(key, desc, "%s", m.problem)
 			continue
@@ -814,7 +1064,8 @@ func c28(c *hx.Ctx) {
 	if rr < 2 {
 		rr = 2
 	}
-	relink := relinkProbe(keys, rr)
+	_ = keys
+	relink := relinkInChild(c, rr)
 	for i := 0; i < rr; i++ {
 		c.Eval()
 	}
@@ -823,4 +1074,40 @@ func c28(c *hx.Ctx) {
 		c.Failf("c28-execute-panic-relink", map[string]any{"kind": "relink-probe",
 			"history": "subscribe ch; peer 1 over link 1 announces ch; second slow subscribed peer; link 1 closed (peerChannels entry of the tuple stays); 16 goroutines publish on ch; AddPeerStream with the same tuple"}, "%s", b)
 	}
+}
+
+// relinkInChild runs the relink probe in a child process (it runs 16 publishing goroutines against
+// goroutines of the implementation; a panic there must not take the other observations with it).
+func relinkInChild(c *hx.Ctx, rounds int) []string {
+	_ = os.MkdirAll(c.Out, 0o755)
+	dir, err := os.MkdirTemp(c.Out, "c28relink")
+	if err != nil {
+		panic(err)
+	}
+	defer os.RemoveAll(dir)
+	cmd := exec.Command(os.Args[0], "-prop", "C28RELINK", "-seed", strconv.FormatInt(c.Seed, 10), "-n", strconv.Itoa(rounds), "-out", dir)
+	cmd.Env = append(os.Environ(), "PUBSUB_CHILD=1")
+	outb, err := cmd.CombinedOutput()
+	raw, rerr := os.ReadFile(filepath.Join(dir, "result.json"))
+	if err != nil || rerr != nil {
+		tail := string(outb)
+		if i := strings.Index(tail, "panic:"); i >= 0 {
+			tail = tail[i:]
+		}
+		if len(tail) > 900 {
+			tail = tail[:900]
+		}
+		return []string{"the relink probe process died: " + tail}
+	}
+	var res struct {
+		Failures []struct {
+			What string `json:"what"`
+		} `json:"failures"`
+	}
+	_ = json.Unmarshal(raw, &res)
+	var out []string
+	for _, f := range res.Failures {
+		out = append(out, f.What)
+	}
+	return out
 }
